@@ -199,8 +199,11 @@ func (g *ExecutionGraph) setupRetry() error {
 	for len(frontier) > 0 {
 		var next []int
 		for _, u := range frontier {
+			// A node recorded as not started is executed by the retry as well;
+			// it may carry a retry count (stop during its retry interval) that
+			// must not shorten its retry budget now.
 			if retry[u] || dict[u] == NodeStatusError ||
-				dict[u] == NodeStatusCancel {
+				dict[u] == NodeStatusCancel || dict[u] == NodeStatusNone {
 				g.logger.Info("clear node state", "step", g.dict[u].data.Step.Name)
 				g.dict[u].clearState()
 				retry[u] = true
